@@ -216,7 +216,12 @@ def sessions(ctx, cfgs, mode, opts_for=lambda k: {}):
             if mode == "C18" and not any(c["bad"] for c in st["chroms"]):
                 continue
             k += 1
-            jobs.append((f"{cfg[12:-4]}-{k}", {"nodes": st["nodes"], "links": st["links"], "chroms": st["chroms"]}, mode, ctx.seed * 1009 + k, opts_for(k)))
+            # chromosome names are opaque to the model; two of three sessions use names that are prefixes of one another
+            # (chr1 / chr10 / chr2) in either assignment, as real assemblies do
+            ren = [{}, {"chrA": "chr10", "chrB": "chr1", "chrC": "chr2"}, {"chrA": "chr1", "chrB": "chr10", "chrC": "chr100"}][k % 3]
+            nodes = [dict(n, sn=ren.get(n["sn"], n["sn"])) for n in st["nodes"]]
+            chroms = [dict(c, name=ren.get(c["name"], c["name"])) for c in st["chroms"]]
+            jobs.append((f"{cfg[12:-4]}-{k}", {"nodes": nodes, "links": st["links"], "chroms": chroms}, mode, ctx.seed * 1009 + k, opts_for(k)))
     return jobs
 
 
